@@ -28,6 +28,18 @@ pub fn targets_for(id: &str) -> &'static [&'static str] {
     }
 }
 
+/// memory oracle inside the targets: when the binary's global allocator is the harness's counting allocator (the fuzz
+/// targets and pkverif install it), the decode call may not request or hold more than 8 MiB + 256 bytes per input byte
+fn mem_guard<T>(len: usize, what: &str, f: impl FnOnce() -> T) -> T {
+    crate::alloc::reset();
+    let r = f();
+    let st = crate::alloc::get();
+    let used = (st.max_request as u64).max(st.peak.max(0) as u64);
+    let limit = (8u64 << 20) + 256 * len as u64;
+    assert!(used <= limit, "{what}: memory out of proportion: largest request {} bytes, peak live {} bytes for an input of {len} bytes (limit {limit})", st.max_request, st.peak);
+    r
+}
+
 pub fn run_target(name: &str, data: &[u8]) {
     match name {
         "authdata" => authdata(data),
@@ -42,7 +54,7 @@ pub fn run_target(name: &str, data: &[u8]) {
 
 /// C12/C15: arbitrary bytes never panic; whatever decodes re-encodes to bytes that decode to an equal value
 pub fn authdata(data: &[u8]) {
-    if let Ok(v) = AuthenticatorData::from_slice(data) {
+    if let Ok(v) = mem_guard(data.len(), "AuthenticatorData::from_slice", || AuthenticatorData::from_slice(data)) {
         let bytes = v.to_vec();
         let again = AuthenticatorData::from_slice(&bytes).expect("re-encoding of a decoded value must decode");
         // compared on the bytes (a NaN inside an extension value is not equal to itself)
@@ -56,7 +68,7 @@ pub fn authdata(data: &[u8]) {
 }
 
 fn cbor_fixpoint<T: Serialize + DeserializeOwned>(data: &[u8]) {
-    if let Ok(v) = ciborium::de::from_reader::<T, _>(data) {
+    if let Ok(v) = mem_guard(data.len(), "CBOR decode", || ciborium::de::from_reader::<T, _>(data)) {
         let mut b1 = vec![];
         ciborium::ser::into_writer(&v, &mut b1).expect("a decoded message must serialise");
         let v2: T = ciborium::de::from_reader(b1.as_slice()).expect("the serialisation of a decoded message must decode");
@@ -108,7 +120,7 @@ fn blank_floats(v: &mut serde_json::Value) {
 }
 
 fn json_fixpoint<T: Serialize + DeserializeOwned + std::fmt::Debug>(data: &[u8]) {
-    if let Ok(v) = serde_json::from_slice::<T>(data) {
+    if let Ok(v) = mem_guard(data.len(), "JSON decode", || serde_json::from_slice::<T>(data)) {
         let s1 = serde_json::to_string(&v).expect("a parsed value must serialise");
         let v2: T = serde_json::from_str(&s1).unwrap_or_else(|e| panic!("emitted JSON does not parse back: {e}: {s1}"));
         let s2 = serde_json::to_string(&v2).expect("serialise");
@@ -128,7 +140,7 @@ pub fn webauthn_json(data: &[u8]) {
         0 => json_fixpoint::<CredentialCreationOptions>(rest),
         1 => json_fixpoint::<CredentialRequestOptions>(rest),
         2 => {
-            if let Ok(v) = serde_json::from_slice::<CollectedClientData>(rest) {
+            if let Ok(v) = mem_guard(rest.len(), "client data decode", || serde_json::from_slice::<CollectedClientData>(rest)) {
                 let s1 = serde_json::to_string(&v).expect("serialise");
                 let v2: CollectedClientData = serde_json::from_str(&s1).expect("client data must re-parse");
                 let s2 = serde_json::to_string(&v2).expect("serialise");
@@ -152,16 +164,18 @@ pub fn webauthn_json(data: &[u8]) {
 pub fn hid(data: &[u8]) {
     let Some((sel, rest)) = data.split_first() else { return };
     if sel % 2 == 0 {
-        let mut h = ChannelHandler::default();
-        let mut i = 0;
-        while i < rest.len() {
-            let l = rest[i] as usize;
-            let end = (i + 1 + l).min(rest.len());
-            if let Some(m) = h.handle_packet(&rest[i + 1..end]) {
-                assert_eq!(m.payload.len(), m.payload_len, "delivered message is incomplete");
+        mem_guard(rest.len(), "CTAPHID receiver", || {
+            let mut h = ChannelHandler::default();
+            let mut i = 0;
+            while i < rest.len() {
+                let l = rest[i] as usize;
+                let end = (i + 1 + l).min(rest.len());
+                if let Some(m) = h.handle_packet(&rest[i + 1..end]) {
+                    assert_eq!(m.payload.len(), m.payload_len, "delivered message is incomplete");
+                }
+                i = end;
             }
-            i = end;
-        }
+        });
     } else {
         if rest.len() < 7 {
             return;
@@ -206,7 +220,7 @@ pub fn hid(data: &[u8]) {
 
 /// C17/C15
 pub fn u2f(data: &[u8]) {
-    if let Ok(r) = Request::try_from(data) {
+    if let Ok(r) = mem_guard(data.len(), "U2F request decode", || Request::try_from(data)) {
         // a parsed request re-encodes to a frame that parses to the same request
         let (ins, p1, payload): (u8, u8, Vec<u8>) = match &r.data {
             RequestPayload::Register(x) => (1, r.p1, [x.challenge.as_slice(), &x.application].concat()),
@@ -277,5 +291,10 @@ pub fn write_corpus(dir: &std::path::Path, n: u64) -> std::io::Result<()> {
     }
     put("webauthn_json", 900, br#"{"type":"webauthn.get","challenge":"Y2hhbGxlbmdl","origin":"https://example.com","crossOrigin":false,"extra":{"a":[1,2]},"zzz":null}"#.to_vec().into_iter().rev().chain([2u8]).rev().collect())?;
     put("hid", 900, vec![1, 1, 2, 3, 4, 3, 0, 200, 9, 9, 9])?;
+    // getInfo whose versions / transports element nests a few arrays with huge declared lengths (harmless at this depth;
+    // a decoder that reserves by declared length per level shows once the fuzzer repeats the pattern)
+    let nest = [0x9bu8, 0, 0, 1, 0, 0, 0, 0, 0].repeat(3);
+    put("ctap_cbor", 901, [vec![4u8, 0xa2, 0x01, 0x81], nest.clone(), vec![0x03, 0x50], vec![0u8; 16]].concat())?;
+    put("ctap_cbor", 902, [vec![4u8, 0xa3, 0x01, 0x81, 0x68], b"FIDO_2_0".to_vec(), vec![0x03, 0x50], vec![0u8; 16], vec![0x09, 0x81], nest].concat())?;
     Ok(())
 }
